@@ -296,10 +296,16 @@ class FieldHandler:
         if field.arg is not None:
             field.report('Unexpected argument in %s field' % (field.tag,))
 
+    @staticmethod
+    def _report_duplicate(field: Field, already: bool) -> None:
+        if already:
+            field.report('Field "%s" was already given, the earlier text is not displayed' % (field.tag,))
+
     def handle_return(self, field: Field) -> None:
         self._report_unexpected_argument(field)
         if not self.return_desc:
             self.return_desc = ReturnDesc()
+        self._report_duplicate(field, self.return_desc.body is not None)
         self.return_desc.body = field.format()
     handle_returns = handle_return
 
@@ -307,6 +313,7 @@ class FieldHandler:
         self._report_unexpected_argument(field)
         if not self.yields_desc:
             self.yields_desc = FieldDesc()
+        self._report_duplicate(field, self.yields_desc.body is not None)
         self.yields_desc.body = field.format()
     handle_yields = handle_yield
 
@@ -314,6 +321,7 @@ class FieldHandler:
         self._report_unexpected_argument(field)
         if not self.return_desc:
             self.return_desc = ReturnDesc()
+        self._report_duplicate(field, self.return_desc.type_origin is FieldOrigin.FROM_DOCSTRING)
         self.return_desc.type = field.format()
         self.return_desc.type_origin = FieldOrigin.FROM_DOCSTRING
     handle_rtype = handle_returntype
@@ -322,6 +330,7 @@ class FieldHandler:
         self._report_unexpected_argument(field)
         if not self.yields_desc:
             self.yields_desc = FieldDesc()
+        self._report_duplicate(field, self.yields_desc.type is not None)
         self.yields_desc.type = field.format()
     handle_ytype = handle_yieldtype
 
@@ -399,6 +408,8 @@ class FieldHandler:
             #       inconsistencies.
             name = field.arg
         if name is not None:
+            previous = self.types.get(name)
+            self._report_duplicate(field, previous is not None and previous.origin is FieldOrigin.FROM_DOCSTRING)
             self.types[name] = ParamType(field.format(), origin=FieldOrigin.FROM_DOCSTRING)
 
     def handle_param(self, field: Field) -> None:
@@ -953,6 +964,7 @@ def extract_fields(obj: model.CanContainImportsDocumentable) -> None:
     parsed_doc = parse_docstring(obj, doc, obj)
     obj.parsed_docstring = parsed_doc
 
+    seen: set[tuple[str, bool]] = set()
     for field in parsed_doc.fields:
         tag = field.tag()
         if tag in ['ivar', 'cvar', 'var', 'type']:
@@ -971,6 +983,10 @@ def extract_fields(obj: model.CanContainImportsDocumentable) -> None:
             attrobj.setLineNumber(lineno)
             if not attrobj.docstring_lineno:
                 attrobj.docstring_lineno = lineno
+            if (arg, tag == 'type') in seen:
+                obj.report('Field "%s %s" was already given, the earlier text is not displayed' % (tag, arg),
+                           'docstring', field.lineno)
+            seen.add((arg, tag == 'type'))
             if tag == 'type':
                 attrobj.parsed_type = field.body()
             else:
